@@ -404,22 +404,46 @@ func writeSchemas(dir, tier string, seed int) ([]*SchemaFile, error) {
 	}
 	// mutually recursive rules (choices of three and more alternatives that reach each other, one of them
 	// beginning with a reference back to a rule still being analysed by the -switch optimiser)
-	rec := filepath.Join(dir, prefix+"-recursive.peg")
-	if err := os.WriteFile(rec, []byte(recursiveGrammar), 0o644); err != nil {
-		return nil, err
+	for i, g := range recursiveGrammars {
+		rec := filepath.Join(dir, fmt.Sprintf("%s-recursive%d.peg", prefix, i))
+		if err := os.WriteFile(rec, []byte(recursiveHeader+g), 0o644); err != nil {
+			return nil, err
+		}
+		files = append(files, &SchemaFile{Name: fmt.Sprintf("%s-recursive%d", prefix, i), Path: rec})
 	}
-	files = append(files, &SchemaFile{Name: prefix + "-recursive", Path: rec})
 	return files, nil
 }
 
-const recursiveGrammar = `package main
+const recursiveHeader = `package main
 
 type S Peg {
  n int
  ok bool
 }
 
-Start <- (Value / Expr / List) (Value / Expr / List)? !.
+`
+
+// Each grammar starts with the recursive rule itself, so that the -switch analysis meets the back
+// reference while the rule is still in progress (a rule first reached from a finished context hides that).
+var recursiveGrammars = []string{
+	`Value <- '[' Items ']' / Num / Str
+Items <- Row (';' Row)*
+Row <- Value '=' Value / '-' / [a-z]+
+Num <- <[0-9]+> {p.n += len(text)}
+Str <- '"' (!'"' .)* '"'
+`,
+	`Expr <- Term ('+' Term)*
+Term <- Factor ('*' Factor)*
+Factor <- '(' Expr ')' / Num / [a-z]+ / '-' Factor
+Num <- [0-9]+
+`,
+	`List <- '{' Elems? '}'
+Elems <- Elem (',' Elem)*
+Elem <- List '!' / Num / Str / [a-z]+ / '<' Elem '>'
+Num <- [0-9]+
+Str <- '"' (!'"' .)* '"'
+`,
+	`Start <- (Value / Expr / List) (Value / Expr / List)? !.
 Value <- '[' Items ']' / Num / Str
 Items <- Row (';' Row)*
 Row <- Value '=' Value / '-' / [a-z]+
@@ -431,7 +455,8 @@ Factor <- '(' Expr ')' / Num / [a-z]+ / '-' Factor
 List <- '{' Elems? '}'
 Elems <- Elem (',' Elem)*
 Elem <- List / Num / Str / [a-z]+ / '<' Elem '>'
-`
+`,
+}
 
 // backtrackFamily: operands that can match a prefix and then fail (so that position AND token index must be
 // restored), under every backtracking operator and in the contexts that follow it, with and without
